@@ -447,6 +447,7 @@ func (c *Ctx) checkRecurrences() {
 	run.Floor("recurrences", 7)
 	c.checkStepSpecs(stepSpecs)
 	run.Floor("selection_rules", 1)
+	c.checkLoopFormulas()
 }
 
 // stageLoopMachine: the guarded commands of one iteration of the steady-state loop of a
@@ -473,10 +474,40 @@ func stageLoopMachine(info *types.Info, fl *ast.FuncLit) *dtab.Machine {
 		if body == nil {
 			continue
 		}
+		// variables the loop body assigns are the remembered values, not definitions to inline
+		assigned := map[types.Object]bool{}
+		ast.Inspect(body, func(n ast.Node) bool {
+			switch x := n.(type) {
+			case *ast.AssignStmt:
+				for _, l := range x.Lhs {
+					if id, ok := l.(*ast.Ident); ok {
+						if o := info.Uses[id]; o != nil {
+							assigned[o] = true
+						}
+					}
+				}
+			case *ast.IncDecStmt:
+				if id, ok := x.X.(*ast.Ident); ok {
+					if o := info.Uses[id]; o != nil {
+						assigned[o] = true
+					}
+				}
+			}
+			return true
+		})
 		j := i
 		for j > 0 {
 			as, ok := list[j-1].(*ast.AssignStmt)
 			if !ok || as.Tok != token.DEFINE || !pureExprs(info, as.Rhs) {
+				break
+			}
+			carried := false
+			for _, l := range as.Lhs {
+				if id, ok := l.(*ast.Ident); ok && assigned[info.Defs[id]] {
+					carried = true
+				}
+			}
+			if carried {
 				break
 			}
 			j--
@@ -544,12 +575,12 @@ func pureExprs(info *types.Info, es []ast.Expr) bool {
 // expressions, compared with the closure on every truth assignment of the comparisons involved.
 
 type stepSpec struct {
-	Site    string            // "volatility.(*SuperTrend).Compute"
-	Callee  string            // the helper the closure is passed to
-	Params  []string          // spec names of the inputs, in order
-	State   []string          // spec names of the remembered values
-	Hint    map[string]string // spec state name -> name of the captured variable (tried first)
-	Bool    map[string]bool   // which state values are truth values
+	Site    string              // "volatility.(*SuperTrend).Compute"
+	Callee  string              // the helper the closure is passed to
+	Params  []string            // spec names of the inputs, in order
+	State   []string            // spec names of the remembered values
+	Hint    map[string]string   // spec state name -> name of the captured variable (tried first)
+	Bool    map[string]bool     // which state values are truth values
 	Enum    map[string][]string // inputs ranging over named constants (enumerated, not compared by sign)
 	Rule    string              // rule name in reports
 	Let     [][2]string
@@ -1060,7 +1091,6 @@ func liftIte(e sym.Expr) sym.Expr {
 	return e
 }
 
-
 // compiled truth functions: comparison keys are computed once, not per assignment.
 type boolFn func(t truth) (bool, bool)
 
@@ -1172,4 +1202,191 @@ func compileSel(e sym.Expr) selFn {
 		}
 	}
 	return func(truth) (sym.Expr, bool) { return e, true }
+}
+
+// ---------------------------------------------------------------------------
+// Window formulas computed by a counted loop over a ring (Wma, MovingStd): the step is loop-free
+// once the loop is read as a sum; the value produced when the ring is full is compared with the
+// documented formula.
+
+type loopFormulaSpec struct {
+	Site   string
+	Kind   string // "closure" (passed to Callee) or "stage"
+	Callee string
+	Params []string
+	State  string // "" = none
+	Update string // documented update of the remembered value (every step)
+	Value  string // the value produced when the ring is full
+	Else   string // the value produced otherwise ("" = nothing is produced)
+	Doc    string
+}
+
+var loopFormulaSpecs = []loopFormulaSpec{
+	{Site: "trend.(*Wma).Compute", Kind: "closure", Callee: "Map", Params: []string{"x"},
+		Value: "sum(0, Period, Ring.At(k1) * (k1 + 1) / Period) / 2", Else: "0",
+		Doc: "WMA = ((Value1 * 1/N) + (Value2 * 2/N) + ...) / 2 over the last N values"},
+	{Site: "volatility.(*MovingStd).Compute", Kind: "stage", Params: []string{"x"}, State: "s",
+		Update: "s - Ring.Put(x) + x",
+		Value:  "sqrt(sum(0, Period, pow(Ring.At(k1) - (s - Ring.Put(x) + x) / Period, 2)) / Period)",
+		Doc:    "Std = Sqrt(1/Period * Sum(Pow(value - sma, 2))) over the last Period values"},
+}
+
+// ringFull classifies a path by its ring-fullness conditions: +1 full, -1 not full, 0 unconstrained.
+func ringFull(conds []sym.Expr) (int, bool) {
+	res := 0
+	for _, cd := range conds {
+		neg := false
+		for {
+			l, ok := cd.(sym.Logic)
+			if !ok || l.Op != "!" || len(l.Args) != 1 {
+				break
+			}
+			neg = !neg
+			cd = l.Args[0]
+		}
+		call, ok := cd.(sym.Call)
+		if !ok || call.Fn != "Ring.IsFull" {
+			return 0, false
+		}
+		v := 1
+		if neg {
+			v = -1
+		}
+		if res != 0 && res != v {
+			return 0, false
+		}
+		res = v
+	}
+	return res, true
+}
+
+func (c *Ctx) checkLoopFormulas() {
+	run := c.Run
+	for _, sp := range loopFormulaSpecs {
+		parts := strings.SplitN(sp.Site, ".(*", 2)
+		fi := c.fn(parts[0], strings.TrimSuffix(parts[1], ").Compute"), "Compute")
+		if fi == nil {
+			continue
+		}
+		run.Count("window_formulas", 1)
+		info := fi.Pkg.TypesInfo
+		var m *dtab.Machine
+		pos := fi.Decl.Pos()
+		if sp.Kind == "closure" {
+			if lit := closureArg(info, fi.Decl, sp.Callee); lit != nil {
+				m = dtab.FromFuncLit(info, lit)
+				pos = lit.Pos()
+			}
+		} else {
+			for _, fl := range goLitsOf(fi.Decl) {
+				if mm := stageLoopMachine(info, fl); mm != nil {
+					m = mm
+					pos = fl.Pos()
+				}
+			}
+		}
+		nState := 0
+		if sp.State != "" {
+			nState = 1
+		}
+		if m == nil || len(m.Unsupported) > 0 || len(m.Params) != len(sp.Params) || len(m.State) != nState {
+			why := "not found"
+			if m != nil {
+				why = fmt.Sprintf("params %v state %v %v", m.Params, m.State, m.Unsupported)
+			}
+			c.violate("formula/window", sp.Site, "shape", pos, "the step over the ring is no longer in the analysable form (one input, a counted sum over the ring) - undecided, fails closed: "+why)
+			continue
+		}
+		ren := map[string]sym.Expr{}
+		env := &specEnv{locals: map[string]bool{}}
+		for i, p := range m.Params {
+			ren[p] = sym.V(sp.Params[i])
+			env.locals[sp.Params[i]] = true
+		}
+		if nState == 1 {
+			ren[m.State[0]] = sym.V(sp.State)
+			env.locals[sp.State] = true
+		}
+		for _, rd := range m.Reads {
+			if i := strings.LastIndex(rd, "."); i >= 0 {
+				ren[rd] = sym.V("cfg:" + rd[i+1:])
+			}
+		}
+		parse := func(src string) sym.Expr {
+			if src == "" {
+				return nil
+			}
+			e, err := env.parse(src)
+			if err != nil {
+				run.Break("bad window-formula specification for " + sp.Site + ": " + err.Error())
+				return nil
+			}
+			return e
+		}
+		wantVal, wantElse, wantUpd := parse(sp.Value), parse(sp.Else), parse(sp.Update)
+		msg := ""
+		seenFull, seenNot := false, false
+		for _, p := range m.Paths {
+			full, ok := ringFull(p.Conds)
+			if !ok {
+				msg = "a branch of the step depends on something other than the ring being full"
+				break
+			}
+			var out sym.Expr
+			switch {
+			case len(p.Ret) == 1:
+				out = sym.Subst(p.Ret[0], ren)
+			case len(p.Sends) == 1:
+				out = sym.Subst(p.Sends[0], ren)
+			case len(p.Ret)+len(p.Sends) > 1:
+				msg = "the step produces more than one value"
+			}
+			want := wantVal
+			if full < 0 {
+				want = wantElse
+				seenNot = true
+			} else {
+				seenFull = true
+			}
+			switch {
+			case want == nil && out != nil:
+				msg = "a value is produced before the ring is full: " + sym.CanonString(out)
+			case want != nil && out == nil:
+				msg = "no value is produced although the ring is full"
+			case want != nil && !sym.Equal(out, want):
+				msg = fmt.Sprintf("the value is %s, documented %s", short(sym.CanonString(out), 200), short(sym.CanonString(want), 200))
+			}
+			if nState == 1 {
+				got := sym.Expr(sym.V(sp.State))
+				if u, has := p.Updates[m.State[0]]; has {
+					got = sym.Subst(u, ren)
+				}
+				if wantUpd != nil && !sym.Equal(got, wantUpd) {
+					msg = fmt.Sprintf("the remembered value becomes %s, documented %s", sym.CanonString(got), sym.CanonString(wantUpd))
+				}
+			}
+			// every step puts the new element into the ring exactly once
+			puts := 0
+			for _, ef := range p.Effects {
+				if strings.Contains(ef, ".Put(") {
+					puts++
+				}
+			}
+			if puts != 1 && msg == "" {
+				msg = fmt.Sprintf("the new element is put into the ring %d times in one step", puts)
+			}
+			if msg != "" {
+				break
+			}
+		}
+		if msg == "" && (!seenFull || (sp.Else != "" && !seenNot)) {
+			msg = "the step does not distinguish a full ring"
+		}
+		run.Oblige(msg == "")
+		run.Sample(map[string]string{"obligation": "window formula of " + sp.Site + " = " + sp.Doc, "verdict": fmt.Sprint(msg == "")})
+		if msg != "" {
+			c.violate("formula/window", sp.Site, short(msg, 140), pos, "the window formula is not the documented one ("+sp.Doc+"): "+msg)
+		}
+	}
+	run.Floor("window_formulas", 2)
 }
